@@ -520,6 +520,11 @@ class DataFormat(object):
             if self.line_delimiter is not None:
                 check_distinct(KEY_ESCAPE_CHARACTER, KEY_LINE_DELIMITER)
             check_distinct(KEY_ESCAPE_CHARACTER, KEY_ITEM_DELIMITER)
+            if self.item_delimiter in ("\r", "\n"):
+                raise errors.InterfaceError(
+                    "'%s' is %s but must not be a line break because rows always end at carriage return or line feed"
+                    % (KEY_ITEM_DELIMITER, _compat.text_repr(self.item_delimiter))
+                )
             check_distinct(KEY_ITEM_DELIMITER, KEY_LINE_DELIMITER)
             check_distinct(KEY_ITEM_DELIMITER, KEY_QUOTE_CHARACTER)
             check_distinct(KEY_LINE_DELIMITER, KEY_QUOTE_CHARACTER)
